@@ -45,6 +45,15 @@ pub fn op_c() -> Box<ExpressionTree> { Box::new(ExpressionTree::ScopedColumnAcce
 /// A leaf operand whose Box points at a *stack* object (never dropped - everything is ManuallyDrop):
 /// CBMC then sees the child's discriminant as a constant and follows only that arm of `evaluate`
 /// instead of exploring every arm to the recursion bound.
+/// A Vec whose buffer is a *stack* array (never dropped or grown - the tree holding it is ManuallyDrop): CBMC then
+/// sees the discriminants of the list's nodes as constants (a heap-held list makes `evaluate` explore every arm).
+macro_rules! stack_vec {
+    ($store:ident, $v:ident, $($e:expr),+) => {
+        let mut $store = ManuallyDrop::new([$($e),+]);
+        let $v = unsafe { let n = $store.len(); Vec::from_raw_parts($store.as_mut_ptr(), n, n) };
+    };
+}
+
 macro_rules! leaf {
     ($store:ident, $boxed:ident, $scope:expr) => {
         let mut $store = ManuallyDrop::new(ExpressionTree::ScopedColumnAccess($scope, String::new()));
@@ -553,10 +562,9 @@ macro_rules! case_harness {
             fn $name() {
                 let c1 = Sym::any($t1, 1);
                 let ops = Ops::new(c1.value(), ManuallyDrop::new(Value::Int(1)), ManuallyDrop::new(Value::Int(3)));
-                let e = ManuallyDrop::new(ExpressionTree::Case {
-                    clauses: vec![(*op_a(), *op_b())],
-                    else_clause: op_c(),
-                });
+                stack_vec!(store, clauses, (ExpressionTree::ScopedColumnAccess(ColumnScope::Table, String::new()), ExpressionTree::ScopedColumnAccess(ColumnScope::AggregationValue, String::new())));
+                leaf!(else_store, else_clause, ColumnScope::GroupKey);
+                let e = ManuallyDrop::new(ExpressionTree::Case { clauses, else_clause });
                 let r = eval(&ops, &e);
                 let t1 = $t1 == V_BOOL && c1.b;
                 let expected = if t1 { 1 } else { 3 };
@@ -591,7 +599,7 @@ macro_rules! subscript_harness {
                 } else {
                     assert!(is_null(&r), "C03 a subscript outside the array is NULL");
                 }
-                kani::cover!(idx == 1 && $len >= 1, "subscript: in range reachable");
+                kani::cover!(idx == 1 || $len == 0, "subscript: in range (or, for the empty array, the end) reachable");
                 kani::cover!(idx == i64::MIN, "subscript: MIN reachable");
             }
         }
@@ -657,18 +665,25 @@ env_stubbed_proof! {
     }
 }
 
-env_stubbed_proof! {
-    #[kani::unwind(2)]
-    fn c03_fn_array_length() {
-        let n: u8 = kani::any();
-        kani::assume(n <= 1);
-        let arr = if n == 0 { Vec::new() } else { vec![Value::Null] };
-        let ops = Ops::new(ManuallyDrop::new(Value::Array(ValueType::Int, arr)), null_md(), null_md());
-        let r = eval(&ops, &call1(Function::ArrayLength));
-        assert!(as_int(&r) == Some(n as i64), "C03 array_length counts the elements");
-        kani::cover!(n == 1, "array_length: 1 reachable");
-    }
+macro_rules! array_length_harness {
+    ($name:ident, $len:expr) => {
+        env_stubbed_array_proof! {
+            #[kani::unwind(2)]
+            fn $name() {
+                let e0: i64 = kani::any();
+                let arr = if $len == 0 { Vec::new() } else { vec![Value::Int(e0)] };
+                let ops = Ops::new(ManuallyDrop::new(Value::Array(ValueType::Int, arr)), null_md(), null_md());
+                stack_vec!(store, arguments, ExpressionTree::ScopedColumnAccess(ColumnScope::Table, String::new()));
+                let e = ManuallyDrop::new(ExpressionTree::FunctionCall { function: Function::ArrayLength, arguments });
+                let r = eval(&ops, &e);
+                assert!(as_int(&r) == Some($len), "C03 array_length counts the elements");
+                kani::cover!(true, "array_length: end reachable");
+            }
+        }
+    };
 }
+array_length_harness!(c03_fn_array_length_0, 0);
+array_length_harness!(c03_fn_array_length_1, 1);
 
 env_stubbed_proof! {
     #[kani::unwind(2)]
@@ -690,26 +705,41 @@ env_stubbed_proof! {
 
 // ------------------------------------------------------------------------------------------------
 // Casts.
-env_stubbed_proof! {
-    #[kani::unwind(2)]
-    fn c03_cast_identity_and_mismatch() {
-        let k: u8 = kani::any();
-        kani::assume(k < 4);
-        let x: i64 = kani::any();
-        let ops = Ops::new(ManuallyDrop::new(Value::Int(x)), null_md(), null_md());
-        let (operand, ty) = match k {
-            0 => (op_a(), ValueType::Int),       // INT::int      -> identity
-            1 => (op_a(), ValueType::Bool),      // INT::boolean  -> error
-            2 => (op_b(), ValueType::Int),       // NULL::int     -> error
-            _ => (op_a(), ValueType::Float),     // INT::real     -> error (no implicit numeric coercion)
-        };
-        let e = ManuallyDrop::new(ExpressionTree::TypeConversion { operand, convert_to_type: ty });
-        let r = eval(&ops, &e);
-        if k == 0 { assert!(as_int(&r) == Some(x), "C03 cast to the value's own type is the identity"); }
-        else { assert!(is_err(&r), "C03 unsupported cast is an error"); }
-        kani::cover!(k == 3, "cast: last reachable");
-    }
+/// x::T for a non-TEXT, non-INTERVAL x and a non-TEXT T: the identity when x already has type T, an error otherwise
+/// (there is no implicit numeric coercion; NULL has no type).
+macro_rules! cast_harness {
+    ($name:ident, $tx:expr, $ty:expr, $identity:expr) => {
+        env_stubbed_proof! {
+            #[kani::unwind(2)]
+            fn $name() {
+                let x = Sym::any($tx, 1);
+                let ops = Ops::new(x.value(), null_md(), null_md());
+                leaf!(operand_store, operand, ColumnScope::Table);
+                let e = ManuallyDrop::new(ExpressionTree::TypeConversion { operand, convert_to_type: $ty });
+                let r = eval(&ops, &e);
+                if $identity {
+                    let same = match ($tx, &*r) {
+                        (V_INT, Ok(Value::Int(v))) => *v == x.i,
+                        (V_BOOL, Ok(Value::Bool(v))) => *v == x.b,
+                        (V_FLOAT, Ok(Value::Float(v))) => v.0.to_bits() == x.f.to_bits(),
+                        _ => false,
+                    };
+                    assert!(same, "C03 a cast to the value's own type is the identity");
+                } else {
+                    assert!(is_err(&r), "C03 a cast that is not defined is an error");
+                }
+                kani::cover!(true, "cast: end reachable");
+            }
+        }
+    };
 }
+cast_harness!(c03_cast_int_int, V_INT, ValueType::Int, true);
+cast_harness!(c03_cast_bool_bool, V_BOOL, ValueType::Bool, true);
+cast_harness!(c03_cast_float_float, V_FLOAT, ValueType::Float, true);
+cast_harness!(c03_cast_int_bool, V_INT, ValueType::Bool, false);
+cast_harness!(c03_cast_int_float, V_INT, ValueType::Float, false);
+cast_harness!(c03_cast_bool_int, V_BOOL, ValueType::Int, false);
+cast_harness!(c03_cast_null_int, V_NULL, ValueType::Int, false);
 
 env_stubbed_proof! {
     #[kani::unwind(2)]
@@ -769,6 +799,135 @@ macro_rules! distinct_harness {
 }
 distinct_harness!(c08_distinct_one_column, 1);
 distinct_harness!(c08_distinct_two_columns, 2);
+
+// ------------------------------------------------------------------------------------------------
+// SelectExecutionEngine::execute (real) over the operand provider: filter -> projection -> DISTINCT
+// (C03 row-level clauses, C08 select path, and - for C07 - that the select engine never swallows a row it is handed).
+use super::select_execution::SelectExecutionEngine;
+use crate::model::SelectStatement;
+use crate::execution::ResultRow;
+
+/// One projection `p0` (operand b) and an optional filter (operand a).  The projection list is a Vec whose buffer
+/// is a *stack* array (never dropped or grown - everything is ManuallyDrop): CBMC then sees the projection's
+/// discriminant as a constant and follows only that arm of `evaluate` (same device as `leaf!`; with the list on the
+/// heap the same harness does not conclude in 15 min, with it 20 s).
+macro_rules! select_statement_1 {
+    ($store:ident, $statement:ident, $filter:expr, $distinct:expr, $limit:expr) => {
+        let mut $store = ManuallyDrop::new([(String::from("p0"), ExpressionTree::ScopedColumnAccess(ColumnScope::AggregationValue, String::new()))]);
+        let $statement = ManuallyDrop::new(SelectStatement {
+            projections: unsafe { Vec::from_raw_parts($store.as_mut_ptr(), 1, 1) },
+            from: String::new(), filename: None,
+            filter: if $filter { Some(ExpressionTree::ScopedColumnAccess(ColumnScope::Table, String::new())) } else { None },
+            join: None, limit: $limit, distinct: $distinct,
+        });
+    };
+}
+
+/// Some(true): exactly one row of one column; Some(false): no row; None: an error or a malformed result
+fn emitted(r: &super::ExecutionResult<Option<ResultRow>>) -> Option<bool> {
+    match r {
+        Ok(None) => Some(false),
+        Ok(Some(row)) => if row.data.len() == 1 && row.data[0].columns.len() == 1 && row.columns.len() == 1 { Some(true) } else { None },
+        Err(_) => None,
+    }
+}
+
+fn emitted_int(r: &super::ExecutionResult<Option<ResultRow>>) -> Option<Option<i64>> {
+    match emitted(r) {
+        Some(false) => Some(None),
+        Some(true) => if let Ok(Some(row)) = r { if let Value::Int(x) = &row.data[0].columns[0] { Some(Some(*x)) } else { None } } else { None },
+        None => None,
+    }
+}
+
+/// C03: exactly one output row iff the WHERE condition is true (a NULL or non-boolean condition is not true),
+/// holding the projection evaluated on that row, under the projection's name.
+macro_rules! select_filter_harness {
+    ($name:ident, $tf:expr) => {
+        env_stubbed_proof! {
+            #[kani::unwind(2)]
+            fn $name() {
+                let cond = Sym::any($tf, 1);
+                let x: i64 = kani::any();
+                let ops = Ops::new(cond.value(), ManuallyDrop::new(Value::Int(x)), null_md());
+                select_statement_1!(store, statement, true, false, None);
+                let mut engine = ManuallyDrop::new(SelectExecutionEngine::new());
+                let r = ManuallyDrop::new(engine.execute(&statement, ManuallyDrop::into_inner(ops)));
+                let qualifies = $tf == V_BOOL && cond.b;
+                assert!(emitted_int(&r) == Some(if qualifies { Some(x) } else { None }), "C03 one output row exactly when the WHERE condition is true, holding the projected value");
+                if let Ok(Some(row)) = &*r {
+                    assert!(row.columns.len() == 1 && row.columns[0].len() == 2 && row.columns[0].as_bytes()[0] == b'p', "C03 the output column carries the projection's name");
+                }
+                kani::cover!(emitted_int(&r) == Some(if $tf == V_BOOL { Some(x) } else { None }), "select filter: expected outcome reachable");
+            }
+        }
+    };
+}
+select_filter_harness!(c03_select_filter_bool, V_BOOL);
+select_filter_harness!(c03_select_filter_null, V_NULL);
+select_filter_harness!(c03_select_filter_int, V_INT);
+
+/// C08 (select path), two rows of one column of the same concrete variant, payloads symbolic: the second row is
+/// emitted exactly when it differs from the first *by value* (NULL equal to NULL, -0.0 equal to 0.0, NaN to NaN).
+macro_rules! select_distinct2_harness {
+    ($name:ident, $t:expr) => {
+        env_stubbed_proof! {
+            #[kani::unwind(2)]
+            fn $name() {
+                let a1 = Sym::any($t, 1);
+                let a2 = Sym::any($t, 1);
+                select_statement_1!(store, statement, false, true, None);
+                let mut engine = ManuallyDrop::new(SelectExecutionEngine::new());
+                let o1 = Ops::new(null_md(), a1.value(), null_md());
+                let r1 = ManuallyDrop::new(engine.execute(&statement, ManuallyDrop::into_inner(o1)));
+                let o2 = Ops::new(null_md(), a2.value(), null_md());
+                let r2 = ManuallyDrop::new(engine.execute(&statement, ManuallyDrop::into_inner(o2)));
+                let same = a1.ref_cmp(&a2) == std::cmp::Ordering::Equal;
+                assert!(emitted(&r1) == Some(true), "C08 the first row is emitted");
+                assert!(emitted(&r2) == Some(!same), "C08 a row is emitted exactly when no earlier row has the same tuple of values");
+                if $t == V_INT {
+                    assert!(emitted_int(&r1) == Some(Some(a1.i)) && (same || emitted_int(&r2) == Some(Some(a2.i))), "C08 DISTINCT leaves the content of surviving rows unchanged");
+                }
+                kani::cover!(emitted(&r2) == Some($t != V_NULL), "select distinct: second row outcome reachable");
+            }
+        }
+    };
+}
+select_distinct2_harness!(c08_select_distinct2_int, V_INT);
+select_distinct2_harness!(c08_select_distinct2_null, V_NULL);
+select_distinct2_harness!(c08_select_distinct2_float, V_FLOAT);
+select_distinct2_harness!(c08_select_distinct2_bool, V_BOOL);
+select_distinct2_harness!(c08_select_distinct2_string, V_STRING);
+
+/// C08 / C07: three rows x, x, y.  After a duplicate the next new row is still emitted - also when the statement
+/// carries a LIMIT that the *emitted* rows have not reached yet (the rows are handed over in the order and to the
+/// extent the outer engine would: 1 row emitted < LIMIT 2 when y arrives).
+macro_rules! select_distinct3_harness {
+    ($name:ident, $limit:expr) => {
+        env_stubbed_proof! {
+            #[kani::unwind(2)]
+            fn $name() {
+                let x: i64 = kani::any();
+                let y: i64 = kani::any();
+                select_statement_1!(store, statement, false, true, $limit);
+                let mut engine = ManuallyDrop::new(SelectExecutionEngine::new());
+                let o1 = Ops::new(null_md(), ManuallyDrop::new(Value::Int(x)), null_md());
+                let r1 = ManuallyDrop::new(engine.execute(&statement, ManuallyDrop::into_inner(o1)));
+                let o2 = Ops::new(null_md(), ManuallyDrop::new(Value::Int(x)), null_md());
+                let r2 = ManuallyDrop::new(engine.execute(&statement, ManuallyDrop::into_inner(o2)));
+                let o3 = Ops::new(null_md(), ManuallyDrop::new(Value::Int(y)), null_md());
+                let r3 = ManuallyDrop::new(engine.execute(&statement, ManuallyDrop::into_inner(o3)));
+                assert!(emitted_int(&r1) == Some(Some(x)), "C08 the first row is emitted");
+                assert!(emitted_int(&r2) == Some(None), "C08 a duplicate of an earlier row is not emitted");
+                assert!(emitted_int(&r3) == Some(if y == x { None } else { Some(y) }), "C07/C08 a new row after a duplicate is emitted (a duplicate does not use up the LIMIT)");
+                kani::cover!(y != x && emitted_int(&r3) == Some(Some(y)), "select distinct: new third row reachable");
+                kani::cover!(y == x, "select distinct: third duplicate reachable");
+            }
+        }
+    };
+}
+select_distinct3_harness!(c08_select_distinct3_int, None);
+select_distinct3_harness!(c07_select_distinct3_limit2, Some(2));
 
 #[cfg(test)]
 #[path = "/verif/.cache/playback/execution.rs"]
